@@ -122,7 +122,7 @@ func bReadU16(r *bytes.Reader, data *uint16) error {
 		bs []byte
 	)
 	bs = b[:]
-	_, err := r.Read(bs)
+	_, err := io.ReadFull(r, bs)
 	*data = binary.BigEndian.Uint16(bs)
 	return err
 }
@@ -134,7 +134,7 @@ func bReadU32(r *bytes.Reader, data *uint32) error {
 		bs []byte
 	)
 	bs = b[:]
-	_, err := r.Read(bs)
+	_, err := io.ReadFull(r, bs)
 	*data = binary.BigEndian.Uint32(bs)
 	return err
 }
@@ -146,7 +146,7 @@ func bReadU64(r *bytes.Reader, data *uint64) error {
 		bs []byte
 	)
 	bs = b[:]
-	_, err := r.Read(bs)
+	_, err := io.ReadFull(r, bs)
 	*data = binary.BigEndian.Uint64(bs)
 	return err
 }
@@ -580,7 +580,7 @@ func (b *Reader) ReadSliceInt8(data *[]int8, len int32, require bool) error {
 	}
 
 	*data = make([]int8, len)
-	_, err := b.buf.Read(*(*[]uint8)(unsafe.Pointer(data)))
+	_, err := io.ReadFull(b.buf, *(*[]uint8)(unsafe.Pointer(data)))
 	if err != nil {
 		err = fmt.Errorf("read []int8 error:%v", err)
 	}
@@ -594,7 +594,7 @@ func (b *Reader) ReadSliceUint8(data *[]uint8, len int32, require bool) error {
 	}
 
 	*data = make([]uint8, len)
-	_, err := b.buf.Read(*data)
+	_, err := io.ReadFull(b.buf, *data)
 	if err != nil {
 		err = fmt.Errorf("read []uint8 error:%v", err)
 	}
@@ -604,7 +604,7 @@ func (b *Reader) ReadSliceUint8(data *[]uint8, len int32, require bool) error {
 // ReadBytes reads []byte for the given length and the require or optional sign.
 func (b *Reader) ReadBytes(data *[]byte, len int32, require bool) error {
 	*data = make([]byte, len)
-	_, err := b.buf.Read(*data)
+	_, err := io.ReadFull(b.buf, *data)
 	return err
 }
 
@@ -850,6 +850,9 @@ func (b *Reader) ReadString(data *string, tag byte, require bool) error {
 			return fmt.Errorf("read string4 tag:%d error:%v", tag, err)
 		}
 		buff := b.Next(int(length))
+		if uint32(len(buff)) != length {
+			return fmt.Errorf("read string4 tag:%d error:%v", tag, io.ErrUnexpectedEOF)
+		}
 		*data = string(buff)
 	} else if ty == STRING1 {
 		var length uint8
@@ -858,6 +861,9 @@ func (b *Reader) ReadString(data *string, tag byte, require bool) error {
 			return fmt.Errorf("read string1 tag:%d error:%v", tag, err)
 		}
 		buff := b.Next(int(length))
+		if len(buff) != int(length) {
+			return fmt.Errorf("read string1 tag:%d error:%v", tag, io.ErrUnexpectedEOF)
+		}
 		*data = string(buff)
 	} else {
 		return fmt.Errorf("need string, tag:%d, but type is %s", tag, getTypeStr(int(ty)))
